@@ -148,6 +148,11 @@ def flavour(atoms, k):
         atoms.positions = np.asfortranarray(np.asarray(atoms.positions, float))
         if atoms.cell is not None:
             atoms.cell = np.asfortranarray(np.asarray(atoms.cell, float))
+        # ... and the term arrays too, as np.argwhere(adjacency) / np.array([i, j]).T / np.transpose(np.nonzero(...)) hand them out
+        for t in terms:
+            v = np.asarray(getattr(atoms, t))
+            if v.ndim == 2 and v.shape[0] >= 2:
+                setattr(atoms, t, np.asfortranarray(v))
     elif name == "read_only_arrays":
         for t in ["positions", "atom_types", "charges", "groups"] + terms + types:
             v = getattr(atoms, t)
